@@ -624,3 +624,51 @@ fn csiz_case(listed: bool) {
 }
 ah!(c30_csiz_listed, { csiz_case(true) });
 ah!(c30_csiz_unlisted, { csiz_case(false) });
+
+// --- CROO / CCP: an unlisted contract is refused before anything about its code is read or written ---
+// The contract exists in storage (3 bytes of code), so only the input list stands between the instruction
+// and its code.  Destination address, offset, length and every other register are symbolic.
+fn tr_byte(i: usize) -> u8 {
+    if i < 32 { 0 } else if i < 64 { SRC.as_ref()[i - 32] } else if i < 96 { DST.as_ref()[i - 64] } else { ASSET.as_ref()[i - 96] }
+}
+fn code_unlisted_case(ccp: bool) {
+    let mut st = SlotStorage::new();
+    let code: [u8; 3] = kani::any();
+    st.code[0] = Some((DST, code.to_vec()));
+    st.code[1] = Some((OTHER, alloc::vec![1u8, 2, 3, 4, 5]));
+    let mut gas = any_gas_costs();
+    let (base, per_unit): (Word, Word) = (kani::any(), kani::any());
+    if ccp { gas.ccp = DependentCost::HeavyOperation { base, gas_per_unit: per_unit }; }
+    else { gas.croo = DependentCost::HeavyOperation { base, gas_per_unit: per_unit }; }
+    let mut regs = any_registers();
+    assume_reg_inv(&regs);
+    kani::assume(regs[R_HP] == VM_MAX_RAM && regs[R_SP] <= LS as Word);
+    regs[0x11] = 64; // contract id (= DST) in memory
+    let probe: usize = kani::any();
+    kani::assume(probe < 64);
+    let mprobe: usize = kani::any();
+    kani::assume(mprobe < LS);
+    let mut vm = mk_vm_with(regs, tr_memory(&SRC, &DST), gas, st);
+    vm.input_contracts.insert(SRC);
+    vm.input_contracts.insert(OTHER);
+    let res = if ccp { op::CCP::new(rid(0x10), rid(0x11), rid(0x12), rid(0x13)).execute(&mut vm) }
+              else { op::CROO::new(rid(0x10), rid(0x11)).execute(&mut vm) };
+    if let Some(exp) = charge(&regs, &vm.registers, &res, base, probe) {
+        assert!(res.is_err(), "an unlisted contract is never served");
+        assert!(vm.registers[probe] == exp[probe], "only the base cost is charged; nothing else moves");
+        assert!(vm.memory.verif_flat(mprobe) == Some(tr_byte(mprobe)), "no byte of memory is written");
+        if matches!(res, Err(RuntimeError::Recoverable(PanicReason::ContractNotInInputs))) {
+            assert!(matches!(vm.panic_context, PanicContext::ContractId(c) if c == DST));
+            kani::cover!(true, "unlisted contract refused");
+        }
+        if !ccp && regs[0x10] <= (LS - 32) as Word {
+            assert!(matches!(res, Err(RuntimeError::Recoverable(PanicReason::ContractNotInInputs))));
+        }
+        if ccp && regs[R_SSP] <= regs[0x10] && regs[0x10] < regs[R_SP] && regs[0x13] <= regs[R_SP] - regs[0x10] {
+            assert!(matches!(res, Err(RuntimeError::Recoverable(PanicReason::ContractNotInInputs))));
+        }
+    }
+    core::mem::forget(vm);
+}
+ah!(c30_croo_unlisted, { code_unlisted_case(false) });
+ah!(c30_ccp_unlisted, { code_unlisted_case(true) });
